@@ -43,23 +43,29 @@ def make_kernels(seed, quick):
         ks.append({"name": name, "src": "def %s(%s):\n%s\n" % (name, args, body), "family": family, "typ": typ, "spec": spec,
                    "pool": pool, "nt": nt})
 
-    n_int = 30 if quick else 400
-    n_flt = 25 if quick else 300
-    n_obj = 30 if quick else 400
+    n_int = 20 if quick else 400
+    n_flt = 15 if quick else 300
+    n_obj = 20 if quick else 400
     int_specs = fmtspec.INT_FIXED + fmtspec.draw_specs(fmtspec.INT_TYPES, n_int, seed, "int")
     flt_specs = fmtspec.FLOAT_FIXED + fmtspec.draw_specs(fmtspec.FLOAT_TYPES, n_flt, seed, "float")
     obj_specs = fmtspec.OBJ_FIXED + fmtspec.draw_specs(fmtspec.INT_TYPES + fmtspec.FLOAT_TYPES + fmtspec.STR_TYPES, n_obj, seed, "obj")
     # (i) f-strings on C integers: every spec with 3 integer types (rotating), every type at least with the fixed claimed specs
     for si, sp in enumerate(int_specs):
         conv = fmtspec.CONVERSIONS[si % len(fmtspec.CONVERSIONS)] if si >= len(fmtspec.INT_FIXED) else ""
-        for j in range(3 if si < len(fmtspec.INT_FIXED) else 2):
+        for j in range((2 if quick else 3) if si < len(fmtspec.INT_FIXED) else 2):
             t = INT_TYPES[(si * 3 + j * 5) % len(INT_TYPES)]
             add("fstr-int", t, conv + ":" + sp, '    return f"{v%s:%s}|"' % (conv, sp), "v: %s" % t, t)
     for t in INT_TYPES:
         for sp in ("", "d", "5d", "05d", "x", "X", "o", "c", "3c", "08x", "-4d", ">06d"):
             add("fstr-int", t, ":" + sp, '    return f"<{v:%s}>"' % sp, "v: %s" % t, t)
+        for sp in ("c", "2c", "5c", "05c", "300c", "d", "7d", "07d", "x"):
+            # single-field f-strings (no literal text, so no JoinedStrNode): the C formatter's result is returned as is
+            add("fstr-int-bare", t, ":" + sp, '    return f"{v:%s}"' % sp, "v: %s" % t, t)
         for conv in ("!r", "!s", "!a"):
             add("fstr-int", t, conv, '    return f"{v%s}"' % conv, "v: %s" % t, t)
+            # conversion + format spec: the spec applies to the STRING produced by the conversion (left-aligned by default)
+            for sp in (("5", ">5", "<5", "^5", "05", "5s", ".1", "d", "x", "*^7") if t in ("cython.int", "cython.ulonglong") else ("5", "05")):
+                add("fstr-int-conv", t, conv + ":" + sp, '    return f"{v%s:%s}|"' % (conv, sp), "v: %s" % t, t)
         add("str-int", t, "str", "    return str(v), repr(v), ascii(v)", "v: %s" % t, t)
         add("format-int", t, "format", "    return format(v), format(v, 'x'), format(v, '05d'), format(v, ',')", "v: %s" % t, t)
         add("concat-int", t, "join", '    return f"a{v}b{v:x}c{v:3}{v}" + str(v)', "v: %s" % t, t)
@@ -74,6 +80,9 @@ def make_kernels(seed, quick):
             add("fstr-float32", "cython.float", ":" + sp, '    return f"{v:%s}|"' % sp, "v: cython.float", "float32")
     for conv in ("", "!r", "!s", "!a"):
         add("fstr-double", "cython.double", conv, '    return f"{v%s}"' % conv, "v: cython.double", "double")
+        if conv:
+            for sp in ("8", ">8", "08", ".2", ".2f", "e", "s", "^9"):
+                add("fstr-double-conv", "cython.double", conv + ":" + sp, '    return f"{v%s:%s}|"' % (conv, sp), "v: cython.double", "double")
     add("str-double", "cython.double", "str", "    return str(v), repr(v), ascii(v)", "v: cython.double", "double")
     add("format-double", "cython.double", "format", "    return format(v), format(v, '.2f'), format(v, 'e'), format(v, 'g'), format(v, '10.3')",
         "v: cython.double", "double")
@@ -85,6 +94,7 @@ def make_kernels(seed, quick):
     # bint, Py_UCS4
     for sp in ("", "d", "5", "5d", "x", "s", ">6", "c", "05d"):
         add("fstr-bint", "cython.bint", ":" + sp, '    return f"{v:%s}|{v}|{v!r}"' % sp, "v: cython.bint", "bint")
+        add("fstr-bint-conv", "cython.bint", "!r:" + sp, '    return f"{v!r:%s}|{v!s:%s}|"' % (sp, sp), "v: cython.bint", "bint")
     add("str-bint", "cython.bint", "str", '    return str(v), repr(v), "%s %d %r" % (v, v, v), format(v)', "v: cython.bint", "bint")
     for sp in ("", "s", "5", "<5", ">5", "^5", "c", "d", "x", "5s", "*^7", "05", ".0", "r"):
         add("fstr-ucs4", "cython.Py_UCS4", ":" + sp, '    return f"{v:%s}|{v}|{v!r}|{v!a}"' % sp, "v: cython.Py_UCS4", "ucs4")
@@ -107,7 +117,7 @@ def make_kernels(seed, quick):
     add("format-obj", "object", "format", "    return format(v, s)", "v, s", "object-spec")
     add("join-obj", "object", "join", '    return "".join([str(v), f"{v}", "%s" % (v,)]), ",".join(f"{x}" for x in (v, v))', "v", "object")
     # (ii) %-formatting
-    templates = fmtspec.PRINTF_FIXED + fmtspec.draw_printf(40 if quick else 500, seed)
+    templates = fmtspec.PRINTF_FIXED + fmtspec.draw_printf(25 if quick else 500, seed)
     for ti, tm in enumerate(templates):
         lit = tm.replace("\\", "\\\\").replace('"', '\\"')
         star = tm.count("*")
@@ -257,7 +267,7 @@ def _shard(arg):
         def args_of(ti):
             return [values[i] for i in tuples[ti]]
         for ti, what in r["crashes"]:
-            part.violation("%s:%s:%s:crash" % (k["family"], k["typ"].replace("cython.", ""), k["spec"]),
+            part.violation("%s:%s:[%s]:crash:%s" % (k["family"], k["typ"].replace("cython.", ""), k["spec"], value_class(args_of(ti)[0])),
                            {"kind": "call", "src": "import cython\n" + k["src"], "kernel": k["name"], "args": args_of(ti)},
                            "%s called with %s crashed: %s" % (k["src"].strip().replace("\n", " ; "), args_of(ti), what))
         seen = set()
